@@ -1,4 +1,4 @@
-CONSTANTS MaxRow = 1048576 MaxCol = 16384 MaxSheets = 3 Depth = 5 Rich = TRUE EmitReplay = FALSE Wide = FALSE
+CONSTANTS MaxRow = 1048576 MaxCol = 16384 MaxSheets = 3 Depth = 4 Rich = TRUE EmitReplay = FALSE Wide = FALSE
 SPECIFICATION MCSpec
 VIEW View
 INVARIANTS SavedOK DecodedEqualsModel RulesCarried
